@@ -15,7 +15,7 @@ use vmc::report::{Ctx, Report, Stats};
 use vmc::{fnv, json, Json};
 
 const IGNORE: [&str; 3] = ["unset", "false", "true"];
-const ROOTS: [&str; 4] = ["none", "correct-pem", "correct-der", "unrelated-pem"];
+const ROOTS: [&str; 6] = ["none", "correct-pem", "correct-der", "unrelated-pem", "correct-der-ending-in-whitespace", "correct-pem-crlf"];
 const PROTOS: [&str; 3] = ["any", "tls1.2", "tls1.3"];
 
 #[derive(Clone, Copy, Debug)]
@@ -45,7 +45,7 @@ impl Cell {
         })
     }
     fn expect_accept(&self) -> bool {
-        self.ignore == 2 || ((self.root == 1 || self.root == 2) && self.cert == 0)
+        self.ignore == 2 || (matches!(self.root, 1 | 2 | 4 | 5) && self.cert == 0)
     }
 }
 
@@ -140,6 +140,8 @@ fn run_cell(c: &Cell, pki: &Pki, rt: &tokio::runtime::Runtime, st: &mut Stats) {
         1 => cfg.ca_certs.push(pki.ca.cert.to_pem().unwrap()),
         2 => cfg.ca_certs.push(pki.ca.cert.to_der().unwrap()),
         3 => cfg.ca_certs.push(pki.unrelated_ca.cert.to_pem().unwrap()),
+        4 => cfg.ca_certs.push(pki.ca_der_ws.clone()),
+        5 => cfg.ca_certs.push(String::from_utf8(pki.ca.cert.to_pem().unwrap()).unwrap().replace('\n', "\r\n").into_bytes()),
         _ => {}
     }
     cfg.timeout_ms = Some(15_000);
@@ -208,7 +210,7 @@ fn cells(ctx: &Ctx) -> Vec<Cell> {
     for proto in protos {
         for client in 0..2 {
             for ignore in 0..3 {
-                for root in 0..4 {
+                for root in 0..ROOTS.len() {
                     for cert in 0..5 {
                         v.push(Cell { client, ignore, root, cert, proto });
                     }
@@ -339,7 +341,7 @@ pub fn run(ctx: &Ctx) -> ! {
     let mut rep = Report::new(
         ctx,
         "exploration",
-        "the complete matrix {blocking, async} x {native-tls, rustls} (two builds) x ignore flag {unset, false, true} x extra root {none, correct CA as PEM, as DER, unrelated CA} x server certificate {valid for localhost, wrong host name, expired, self-signed, issued by an unknown CA} = 240 configurations (thorough: x {TLS 1.2, TLS 1.3} forced on the peer = 480), each a real handshake of a real Get-Printer-Attributes request against the loopback TLS peer (openssl acceptor, certificates minted at run time). plus, per backend, every ORDERED pair of an 8-configuration subset per client (128 pairs), each pair run sequentially in a fresh process (history: process-wide state left by the first client must not change the second's verdict). Oracle: accepted <=> ignore = true or (root in {PEM, DER} and certificate valid); on rejection send() = Err AND zero application bytes reached the peer. distinct = configuration",
+        "the complete matrix {blocking, async} x {native-tls, rustls} (two builds) x ignore flag {unset, false, true} x extra root {none, correct CA as PEM, as DER, unrelated CA, correct CA as a DER encoding whose last octet is ASCII white space (same anchor re-signed until it is), correct CA as PEM with CRLF line ends} x server certificate {valid for localhost, wrong host name, expired, self-signed, issued by an unknown CA} = 360 configurations (thorough: x {TLS 1.2, TLS 1.3} forced on the peer = 720), each a real handshake of a real Get-Printer-Attributes request against the loopback TLS peer (openssl acceptor, certificates minted at run time). plus, per backend, every ORDERED pair of an 8-configuration subset per client (128 pairs), each pair run sequentially in a fresh process (history: process-wide state left by the first client must not change the second's verdict). Oracle: accepted <=> ignore = true or (root is the correct CA in any of its four encodings and certificate valid); on rejection send() = Err AND zero application bytes reached the peer. distinct = configuration",
     );
     rep.assume("localhost resolves to 127.0.0.1; the test CA is never in the system trust store");
     if let Some(p) = &ctx.replay {
